@@ -16,6 +16,20 @@
 #include "core.h"
 #include "simfs.h"
 
+// stat() on a simulated path: what a change needs that starts to size or date a file before reading it (miniz's add_file does)
+template <class ST> static int sim_stat(const char * path, ST * st) {
+	std::string norm = simfs_normalize(path);
+	bool isd = false;
+	if (!simfs_exists(norm, &isd)) { errno = ENOENT; return -1; }
+	memset(st, 0, sizeof *st);
+	st->st_mode = isd ? (S_IFDIR | 0755) : (S_IFREG | 0644);
+	st->st_nlink = 1;
+	auto it = g_sim.files.find(norm);
+	if (!isd && it != g_sim.files.end() && !it->second.versions.empty()) st->st_size = (off_t)it->second.versions[0].size();
+	st->st_mtime = (time_t)g_sim.clock_now;
+	return 0;
+}
+
 extern "C" {
 	size_t mmd6_verif_dstring_start = 1024;
 	size_t mmd6_verif_pool_objects = 1024;
@@ -32,6 +46,8 @@ extern "C" {
 	void __real_free(void *);
 	char * __real_realpath(const char *, char *);
 	int __real_mkdir(const char *, mode_t);
+	int __real_stat(const char *, struct stat *);
+	int __real_stat64(const char *, struct stat64 *);
 	int __real_chdir(const char *);
 	char * __real_getcwd(char *, size_t);
 	size_t __sanitizer_get_allocated_size(const volatile void *);
@@ -173,6 +189,14 @@ extern "C" {
 	char * __wrap_realpath(const char * path, char * resolved) {
 		if (g_sim.active && path && simfs_is_sim_path(path)) return simfs_realpath(path, resolved);
 		return __real_realpath(path, resolved);
+	}
+	int __wrap_stat(const char * path, struct stat * st) {
+		if (g_sim.active && path && st && simfs_is_sim_path(path)) return sim_stat(path, st);
+		return __real_stat(path, st);
+	}
+	int __wrap_stat64(const char * path, struct stat64 * st) {
+		if (g_sim.active && path && st && simfs_is_sim_path(path)) return sim_stat(path, st);
+		return __real_stat64(path, st);
 	}
 	int __wrap_mkdir(const char * path, mode_t m) {
 		if (g_sim.active && path && simfs_is_sim_path(path)) return simfs_mkdir(path);
